@@ -42,7 +42,7 @@ func (p *Proof) initialState() *State {
 
 // frame-level contract environment
 func (fr *Frame) env(st *State, localsFirst bool) *CEnv {
-	env := &CEnv{p: fr.p, pkg: pkgOfFunc(fr.fn), fn: fr.fn, vars: map[string]cvar{}, st: st, old: fr.entrySt, loopEntry: fr.loopEntry}
+	env := &CEnv{p: fr.p, pkg: pkgOfFunc(fr.fn), fn: fr.fn, vars: map[string]cvar{}, st: st, old: fr.entrySt, loopEntry: fr.loopEntry, iterEntry: fr.iterEntry}
 	if !localsFirst {
 		for i, prm := range fr.fn.Params {
 			if i < len(fr.args) {
